@@ -148,8 +148,34 @@ func Twice(n int) int {
 }
 `}}
 
+// P7 uses what the other programs leave out: command calls (plain, piped, captured, with a call as argument,
+// inside a function), the std os module, input, write / append / exists / read and panic.
+var P7 = Tree{Name: "P7-commands-files-input", Main: "main.tsh", Files: map[string]string{"main.tsh": `import (
+	"os"
+)
+func run(name string) string {
+	out, err, code := @echo(name, "x y") | @tr("a-z", "A-Z")
+	if code != 0 {
+		return err
+	}
+	return out
+}
+@echo("plain", "call")
+o, e, c := @printf("%s", run("ab"))
+print(o, e, c, os.Shell())
+s := input("name: ")
+write("f.txt", s + o)
+write("f.txt", "more", true)
+if exists("f.txt") {
+	print(read("f.txt"))
+}
+if len(s) > 3 {
+	panic("too long: " + s)
+}
+`}}
+
 // AlphabetTrees in alphabet order; call index = 2*tree + target.
-var AlphabetTrees = []Tree{P1, P2, P3, Perr, P4, P5, Perr2, P6}
+var AlphabetTrees = []Tree{P1, P2, P3, Perr, P4, P5, Perr2, P6, P7}
 
 // Schedule programs: they make the call-graph map that the import merge ranges over non-trivial.
 var (
